@@ -25,6 +25,74 @@ WAIT_EXTERNS = ["waitpid", "wait", "wait3", "wait4", "waitid"]
 POPEN = "popen::Popen"
 
 
+def finished_only_when_reaped(ctx, prog, rule):
+    """Popen::waitpid records Finished only on proof that the child is gone: the decoded status under `pid_out == pid`, or
+    Undetermined under errno == ECHILD (and then without propagating the error).  Everything that treats Finished as 'reaped'
+    (no further OS call, no signal, pid() absent) rests on this."""
+    wp = prog.one("PopenOsImpl>::waitpid")
+    T = M.Terms(wp)
+    fin_stores = [(bb, si, s) for (bb, si, s) in stores_to_field(wp, "child_state", "popen::Popen") if si != "term" and s["k"] == "assign" and not wp.blocks[bb].get("cleanup")]
+    seen_undetermined = False
+    seen_status = False
+    for bb, si, s in fin_stores:
+        val = T.rvalue(s["r"])
+        if val[0] != "agg":
+            continue
+        payload = val[2][0] if val[2] else None
+        if payload == ("agg", ("adt", "os_common::ExitStatus", "Undetermined"), ()):
+            seen_undetermined = True
+            def is_echild_const(x):
+                return x[0] == "const" and x[1] == 10 and x[2] in ("libc::ECHILD", "posix::ECHILD")
+
+            def is_echild_cmp(t):
+                # errno == ECHILD on the payload of raw_os_error(e) ...
+                if t[0] == "bin" and t[1] == "Eq":
+                    return any(is_echild_const(x) for x in t[2:4]) and any(M.contains(x, lambda u: u[0] == "call" and u[1] == "std::io::Error::raw_os_error") for x in t[2:4])
+                # ... or  e.raw_os_error() == Some(ECHILD)
+                if t[0] == "call" and t[1].endswith("::eq") and "PartialEq" in t[1] and len(t[2]) == 2:
+                    a, b = [M.noref(x) for x in t[2]]
+                    is_raw = lambda x: x[0] == "call" and x[1] == "std::io::Error::raw_os_error"
+                    is_some = lambda x: x[0] == "agg" and x[1][:3] == ("adt", "std::option::Option", "Some") and is_echild_const(x[2][0])
+                    return (is_raw(a) and is_some(b)) or (is_raw(b) and is_some(a))
+                return False
+            edges = bool_edges(wp, T, is_echild_cmp, True)
+            not_echild = bool_edges(wp, T, is_echild_cmp, False)
+            # a missing errno (raw_os_error() == None) is not ECHILD either
+            not_echild += variant_edges(wp, T, lambda t_: t_[0] == "call" and t_[1] == "std::io::Error::raw_os_error", 0, [0, 1], "std::option::Option<")
+            ok = dominated_by_edges(wp, bb, edges)
+            # on ECHILD the error must not be propagated: every Err return of the waitpid-error arm lies behind a not-ECHILD edge
+            err_arm = variant_edges(wp, T, lambda t_: t_[0] == "call" and t_[1] == "posix::waitpid", 1, [0, 1], "std::result::Result<")
+            errs = [(b2, s2) for (b2, s2, v2, r2) in result_variants(wp, M.Explore(wp)) if v2 == "Err"]
+            prop_ok = bool(err_arm) and bool(errs) and all(dominated_by_edges(wp, b2, not_echild, start=err_arm[0][1]) for b2, _ in errs)
+            ctx.ob(rule, "echild.never-propagated", prop_ok, wp.loc(errs[0][0] if errs else bb),
+                   "when waitpid fails with ECHILD (someone else reaped the child) no path may return the error: the handle must become Finished(Undetermined), "
+                   "for the blocking and the non-blocking query alike")
+            ctx.ob(rule, "echild.guard", ok, wp.loc(bb, si), "Finished(Undetermined) must be stored under `raw_os_error == ECHILD`")
+            # returns Ok from there: the block's successors lead to return without passing an Err assignment
+            rets = [x for x in wp.blocks[bb]["stmts"] if x["k"] == "assign" and x["p"]["l"] == 0 and not x["p"]["proj"]]
+            okret = any(x["r"].get("variant") == "Ok" for x in rets)
+            ctx.ob(rule, "echild.returns-ok", okret, wp.loc(bb, si), "the ECHILD branch must return Ok(())")
+        else:
+            seen_status = True
+            def is_pid_cmp(t):
+                if not (t[0] == "bin" and t[1] == "Eq"):
+                    return False
+                a, b = t[2], t[3]
+                want_pid = ("field", ("downcast", self_field("child_state"), "Running"), "pid")
+                def is_out(x):
+                    return x[0] == "field" and x[2] == "0" and M.contains(x, lambda u: u[0] == "call" and u[1] == "posix::waitpid")
+                return (a == want_pid and is_out(b)) or (b == want_pid and is_out(a))
+            edges = bool_edges(wp, T, is_pid_cmp, True)
+            ok = dominated_by_edges(wp, bb, edges)
+            ctx.ob(rule, "status.pid-match", ok, wp.loc(bb, si),
+                   "Finished(status) must be stored only under `pid_out == pid` (WNOHANG's 0 must not be taken as a status)")
+            src_ok = payload is not None and payload[0] == "field" and payload[2] == "1" and M.contains(payload, lambda u: u[0] == "call" and u[1] == "posix::waitpid")
+            ctx.ob(rule, "status.source", src_ok, wp.loc(bb, si), "stored status = %s (must be component 1 of posix::waitpid's Ok result)" % M.term_str(payload))
+    ctx.ob(rule, "echild.present", seen_undetermined, wp.loc(0), "an ECHILD path storing Finished(Undetermined) must exist")
+    ctx.ob(rule, "status.present", seen_status, wp.loc(0), "a path storing the decoded status must exist")
+
+
+
 def run(ctx):
     prog = ctx.prog
     st_vals = list(range(len(variants(prog, "popen::ChildState"))))
@@ -167,66 +235,7 @@ def run(ctx):
                    "under child_state=%s %s must return %s (found %s)" % (sname, name, want[0], got))
 
     # ---- R09.3 status recorded only for this child; ECHILD -> Undetermined + Ok ----
-    T = M.Terms(wp)
-    fin_stores = [(bb, si, s) for (fn, bb, si, s) in stores if fn.path == wp.path]
-    seen_undetermined = False
-    seen_status = False
-    for bb, si, s in fin_stores:
-        val = T.rvalue(s["r"])
-        if val[0] != "agg":
-            continue
-        payload = val[2][0] if val[2] else None
-        if payload == ("agg", ("adt", "os_common::ExitStatus", "Undetermined"), ()):
-            seen_undetermined = True
-            def is_echild_const(x):
-                return x[0] == "const" and x[1] == 10 and x[2] in ("libc::ECHILD", "posix::ECHILD")
-
-            def is_echild_cmp(t):
-                # errno == ECHILD on the payload of raw_os_error(e) ...
-                if t[0] == "bin" and t[1] == "Eq":
-                    return any(is_echild_const(x) for x in t[2:4]) and any(M.contains(x, lambda u: u[0] == "call" and u[1] == "std::io::Error::raw_os_error") for x in t[2:4])
-                # ... or  e.raw_os_error() == Some(ECHILD)
-                if t[0] == "call" and t[1].endswith("::eq") and "PartialEq" in t[1] and len(t[2]) == 2:
-                    a, b = [M.noref(x) for x in t[2]]
-                    is_raw = lambda x: x[0] == "call" and x[1] == "std::io::Error::raw_os_error"
-                    is_some = lambda x: x[0] == "agg" and x[1][:3] == ("adt", "std::option::Option", "Some") and is_echild_const(x[2][0])
-                    return (is_raw(a) and is_some(b)) or (is_raw(b) and is_some(a))
-                return False
-            edges = bool_edges(wp, T, is_echild_cmp, True)
-            not_echild = bool_edges(wp, T, is_echild_cmp, False)
-            # a missing errno (raw_os_error() == None) is not ECHILD either
-            not_echild += variant_edges(wp, T, lambda t_: t_[0] == "call" and t_[1] == "std::io::Error::raw_os_error", 0, [0, 1], "std::option::Option<")
-            ok = dominated_by_edges(wp, bb, edges)
-            # on ECHILD the error must not be propagated: every Err return of the waitpid-error arm lies behind a not-ECHILD edge
-            err_arm = variant_edges(wp, T, lambda t_: t_[0] == "call" and t_[1] == "posix::waitpid", 1, [0, 1], "std::result::Result<")
-            errs = [(b2, s2) for (b2, s2, v2, r2) in result_variants(wp, M.Explore(wp)) if v2 == "Err"]
-            prop_ok = bool(err_arm) and bool(errs) and all(dominated_by_edges(wp, b2, not_echild, start=err_arm[0][1]) for b2, _ in errs)
-            ctx.ob("R09.3", "echild.never-propagated", prop_ok, wp.loc(errs[0][0] if errs else bb),
-                   "when waitpid fails with ECHILD (someone else reaped the child) no path may return the error: the handle must become Finished(Undetermined), "
-                   "for the blocking and the non-blocking query alike")
-            ctx.ob("R09.3", "echild.guard", ok, wp.loc(bb, si), "Finished(Undetermined) must be stored under `raw_os_error == ECHILD`")
-            # returns Ok from there: the block's successors lead to return without passing an Err assignment
-            rets = [x for x in wp.blocks[bb]["stmts"] if x["k"] == "assign" and x["p"]["l"] == 0 and not x["p"]["proj"]]
-            okret = any(x["r"].get("variant") == "Ok" for x in rets)
-            ctx.ob("R09.3", "echild.returns-ok", okret, wp.loc(bb, si), "the ECHILD branch must return Ok(())")
-        else:
-            seen_status = True
-            def is_pid_cmp(t):
-                if not (t[0] == "bin" and t[1] == "Eq"):
-                    return False
-                a, b = t[2], t[3]
-                want_pid = ("field", ("downcast", self_field("child_state"), "Running"), "pid")
-                def is_out(x):
-                    return x[0] == "field" and x[2] == "0" and M.contains(x, lambda u: u[0] == "call" and u[1] == "posix::waitpid")
-                return (a == want_pid and is_out(b)) or (b == want_pid and is_out(a))
-            edges = bool_edges(wp, T, is_pid_cmp, True)
-            ok = dominated_by_edges(wp, bb, edges)
-            ctx.ob("R09.3", "status.pid-match", ok, wp.loc(bb, si),
-                   "Finished(status) must be stored only under `pid_out == pid` (WNOHANG's 0 must not be taken as a status)")
-            src_ok = payload is not None and payload[0] == "field" and payload[2] == "1" and M.contains(payload, lambda u: u[0] == "call" and u[1] == "posix::waitpid")
-            ctx.ob("R09.3", "status.source", src_ok, wp.loc(bb, si), "stored status = %s (must be component 1 of posix::waitpid's Ok result)" % M.term_str(payload))
-    ctx.ob("R09.3", "echild.present", seen_undetermined, wp.loc(0), "an ECHILD path storing Finished(Undetermined) must exist")
-    ctx.ob("R09.3", "status.present", seen_status, wp.loc(0), "a path storing the decoded status must exist")
+    finished_only_when_reaped(ctx, prog, "R09.3")
 
     reported_status_is_recorded(ctx, prog, "R09.3")
 
